@@ -6,7 +6,9 @@
     C20_decision_is_what_run_does, C20_list_lines_agree / _threaded, C20_info_status_agrees_partial,
     C20_info_ignored_agrees, C20_info_upToDate_iff, C20_pinned_info_ignored_counterexample (the tree before the
     fix: commit), C20_info_counterexample, C20_reasons_true, C20_reasons_complete, C20_reasons_changed_is_true.
-(K) statuslib histories are executed by the real doit (statuslib's own correspondence of the history is kept); at
+(K) statuslib histories are executed by the real doit (statuslib's own correspondence of the history is evaluated: a
+    history that diverges from Model/Status.lean in one of its own ops is counted and its later probes are skipped --
+    that correspondence is reported by C03/C04/C13, which own it); at
     probe points the scratch directory (files + DB) is copied and every read-only command is run through the CLI
     in-process on a copy: `list` in all option combinations that matter, `info t` / `info --no-status t`, `help`,
     `help task`, `help <task>`, `help <cmd>`, `dumpdb`, `tabcompletion` (bash, zsh, --hardcode-tasks), `clean -n`
@@ -591,11 +593,14 @@ def check_reasons(pr, t, status, reasons):
     for p in reasons['missingDep']:
         if not (p in d['deps'] and fname(p) not in files):
             bad.append('missing_file_dep %s' % p)
+    prev = None if (ck_changed or rec['deps:'] is None) else set(int(x[1:]) for x in rec['deps:'])
     for p in reasons['changed']:
         ok = p in d['deps'] and fname(p) in files
         if ok:
             st = None if ck_changed else rec['files'].get(p)
-            if st is not None:
+            # true when: no saved state, or not a dependency of the last recorded execution (a stale state of an
+            # older one may survive in the record), or modified by the checker's rule w.r.t. the saved state
+            if st is not None and not (prev is not None and p not in prev):
                 stt = before['stat'][p]
                 if pr['checker'] == 'md5' and isinstance(st, (list, tuple)):
                     ok = (stt['mtime'] != st[0]) and (stt['size'] != st[1] or stt['md5'] != st[2])
@@ -609,7 +614,6 @@ def check_reasons(pr, t, status, reasons):
         a, b = reasons['checkerChanged']
         if not (ck_changed and statuslib.CK_CLASS.get(rec['checker:']) == a and statuslib.CK_MODEL[pr['checker']] == b):
             bad.append('checker_changed')
-    prev = None if (ck_changed or rec['deps:'] is None) else set(int(x[1:]) for x in rec['deps:'])
     for p in reasons['added']:
         if not (prev is not None and p in d['deps'] and p not in prev):
             bad.append('added_file_dep %s' % p)
@@ -1115,19 +1119,20 @@ def process_batch(batch):
         v = o.base
         if v.crash:
             st.count('impl:crash-' + str(v.crash[1]))
-        if v.divergence or o.divs:
+        if o.divs:
             # an alarm must be reproducible: confirm on a second execution in a fresh directory
             o1 = run_case(case)
             keep = [d for d in o.divs if any(d['what'] == e['what'] and d.get('cmd') == e.get('cmd') for e in o1.divs)]
-            if len(keep) < len(o.divs) or bool(o1.base.divergence) != bool(v.divergence):
+            if len(keep) < len(o.divs):
                 st.count('flaky:divergence-not-reproduced')
             o.divs = keep
-            if not o1.base.divergence:
-                v.divergence = None
         if v.divergence:
+            # the correspondence of the *history* (run / forget / ignore / reset-dep ... against Model/Status.lean) is
+            # owned and reported by C03/C04/C13, which run it on far more histories; here the probes after the
+            # diverging op are skipped (the model state is no longer the implementation's) and the event is counted
             i, what, impl, model = v.divergence
-            st.divergence({'case': case_key(case), 'rendered': render(case), 'at_op': i, 'impl': impl, 'model': model,
-                           'origin': origin}, 'correspondence M2 (history): ' + what)
+            st.count('history-correspondence(M2, owned by C03/C04/C13):diverged')
+            st.count('history-correspondence(M2):' + re.sub(r'op \d+', 'op N', str(what))[:80])
         if o.fails:
             known_f = [f for f in o.fails if any(pred(f) for pred in SIGNATURES.values())]
             fresh_f = [f for f in o.fails if f not in known_f]
@@ -1208,6 +1213,10 @@ def run(ctx):
     left = sum(len(b) for b in batches[done:])
     ctx.extra['histories_planned'] = len(items)
     ctx.extra['histories_not_run_budget_exhausted'] = left
+    nd = ctx.dist.get('history-correspondence(M2, owned by C03/C04/C13):diverged', 0)
+    if nd:
+        ctx.note('%d histories diverged from Model/Status.lean in an op of the history itself (not in a read-only '
+                 'command); that correspondence is C03/C04/C13\'s, the probes after the diverging op were skipped' % nd)
     ctx.extra['hypotheses_satisfied'] = {
         'C20_frame_identity / C20_list_lines_agree (no record of another checker)':
             ctx.dist.get('hyp:no-record-of-another-checker', 0),
